@@ -220,3 +220,14 @@ class Run:
                 )
                 raise StopRun() from e
             raise
+
+
+@contextlib.contextmanager
+def patched(obj, attr, new):
+    """Temporarily replace obj.attr (canary mutants, seams)."""
+    old = getattr(obj, attr)
+    setattr(obj, attr, new)
+    try:
+        yield
+    finally:
+        setattr(obj, attr, old)
